@@ -193,6 +193,9 @@ def problems(draw, kinds=("elastic2d", "elastic2d", "elastic3d", "thermal", "bea
         p = dict(kind="elastic", recipe=r, law=law, rho=draw(st.integers(1, 12)) / 4.0)
         if damping:
             p["rayleigh"] = [draw(st.sampled_from([0.0, 0.5, 2.0])), draw(st.sampled_from([0.0, 0.05, 1.0]))]
+            # gyro = [gC, gK]: a skew (gyroscopic / circulatory) part added to the element C and K, so that the system
+            # matrix of the step is not symmetric ("for all K/C/M")
+            p["gyro"] = draw(st.sampled_from([None, None, [0.5, 0.0], [2.0, 0.3]]))
         else:
             p["rayleigh"] = [0.0, 0.0]
         return p
@@ -253,6 +256,33 @@ class NewtonElastic(_NewtonMixin, Simulations.Elastic):
     pass
 
 
+class _GyroMixin:
+    """element matrices with a skew part: C_e += gC (U_M - U_M^T), K_e += gK (U_K - U_K^T), U_X the strict upper
+    triangle of X_e.  x^T (U - U^T) x = 0, so definiteness (hence solvability of the step) is unchanged."""
+
+    _verif_gyro = (0.0, 0.0)
+
+    def Construct_local_matrix_system(self, problemType):
+        out = super().Construct_local_matrix_system(problemType)
+        gC, gK = self._verif_gyro
+        new = {}
+        for g, (K_e, C_e, M_e, F_e) in out.items():
+            K_e, M_e = np.asarray(K_e), np.asarray(M_e)
+            UM, UK = np.triu(M_e, 1), np.triu(K_e, 1)
+            C2 = (0.0 if C_e is None else np.asarray(C_e)) + gC * (UM - UM.transpose(0, 2, 1))
+            K2 = K_e + gK * (UK - UK.transpose(0, 2, 1))
+            new[g] = (K2, C2, M_e, F_e)
+        return new
+
+
+class GyroElastic(_GyroMixin, Simulations.Elastic):
+    pass
+
+
+class NewtonGyroElastic(_NewtonMixin, _GyroMixin, Simulations.Elastic):
+    pass
+
+
 class NewtonThermal(_NewtonMixin, Simulations.Thermal):
     pass
 
@@ -303,7 +333,11 @@ def build(p, newton=False):
             if mesh.Nn * dim > MAXDOF:
                 raise Inconclusive("too many dofs")
             mat = gmod.make_elastic(p["law"])
-            simu = (NewtonElastic if newton else Simulations.Elastic)(mesh, mat)
+            if p.get("gyro"):
+                simu = (NewtonGyroElastic if newton else GyroElastic)(mesh, mat)
+                simu._verif_gyro = tuple(p["gyro"])
+            else:
+                simu = (NewtonElastic if newton else Simulations.Elastic)(mesh, mat)
             simu.rho = p["rho"]
             cM, cK = p["rayleigh"]
             if cM or cK:
@@ -595,6 +629,8 @@ def check_one_step(case, rec):
               "load" if _mx(F) > 0 else "no_load", "damping" if _mx(C) > 0 and p["kind"] != "thermal" else "no_damping")
     if sch.get("defaults"):
         rec.label("default_parameters")
+    if p.get("gyro"):
+        rec.label("matrices:non_symmetric")
     rec.nontrivial(_nontrivial(algo, (u_n, v_n, a_n), F, C if p["kind"] != "thermal" else 0 * C, kinds, free))
 
 
